@@ -7,6 +7,7 @@ From Coq Require Import List NArith.
 From Goit Require Import Bytes Tree Index IndexFacts DiffFacts TreeFacts.
 From Goit Require Import Obj World Repo ExactFacts.
 From Goit Require Import Bridge.
+From Goit Require Import Inv BranchFacts SnapshotFacts RestoreFacts.
 Import ListNotations.
 
 (* T0 (tie to the source): every regexp literal of the current Go source denotes
@@ -76,6 +77,46 @@ Theorem C09_restore_staged_spec : forall c args w out w' tr,
              w' = apply_effects tr w /\ Forall (fun e => is_idx e = true) tr.
 Proof. exact cmd_restore_idx_spec. Qed.
 
+(* ---------- Part 2: totality on every reachable repository, argument lists ---------- *)
+(* restore <paths>: on every reachable repository, for ANY non-empty list of
+   arguments each naming a tracked file or a directory with tracked files
+   beneath (whether or not it exists on disk), provided no file sits where a
+   directory is needed and no directory at a selected path ([restorable]; both
+   shown necessary by witnesses in RestoreFacts.v) and no selected path lies
+   above another ([wd_flat]: the staging area can hold d and d/x, see DESIGN.md):
+   the command SUCCEEDS; every selected file holds the bytes of its staged blob;
+   every other file, the staging area, objects, refs, HEAD, logs, configs are
+   unchanged; only missing parent directories are created *)
+Theorem C09_restore_worktree_total : forall e c w args,
+  Reachable w -> w_coll w = false -> SmallStore (w_objs w) -> w_inited w = true -> ctx_of w = Some c ->
+  args <> [] -> (forall a, In a args -> wd_known w a) ->
+  (forall q, wd_selected w args q -> restorable w q) -> wd_flat w args ->
+  exists w' tr, step (ACmd e (CRestore false args)) w = (w', OOk [], tr) /\
+    restore_wt_result w args w' /\ w' = apply_effects tr w /\
+    Forall (fun ef => match ef with EWriteFile q _ => wd_selected w args q | EMkdirAll _ => True | _ => False end) tr.
+Proof. exact restore_worktree_total. Qed.
+
+(* restore --staged <paths>: every selected entry (named, or beneath a named
+   directory, in the staging area or in HEAD's snapshot) becomes HEAD's entry
+   (removed if HEAD has none, re-created if it had been unstaged); every other
+   entry and the work tree are unchanged; the staging area stays canonical *)
+Theorem C09_restore_staged_total : forall e c w args ns,
+  Reachable w -> w_coll w = false -> SmallStore (w_objs w) -> w_inited w = true -> ctx_of w = Some c ->
+  head_nodes c w = Some ns -> args <> [] -> (forall a, In a args -> st_known w ns a) ->
+  repeats_in_head ns (idx_targets w ns args) ->
+  exists w' tr, step (ACmd e (CRestore true args)) w = (w', OOk [], tr) /\
+    restore_st_result w ns args w' /\ w' = apply_effects tr w /\ Forall (fun ef => is_idx ef = true) tr.
+Proof. exact restore_staged_total. Qed.
+
+(* a path known to neither is refused: if SOME argument names nothing, the whole
+   command is refused with the world unchanged, whatever the other arguments *)
+Theorem C09_unknown_argument_refuses_all : forall e w stg_mode args a,
+  In a args -> staged w a = None ->
+  (forall en, In en (idx_of w) -> under_dir a (e_path en) = false) ->
+  (stg_mode = true -> forall c ns, ctx_of w = Some c -> head_nodes c w = Some ns -> get_node ns a = None) ->
+  step (ACmd e (CRestore stg_mode args)) w = (w, OErr, []).
+Proof. exact restore_unknown_refused. Qed.
+
 Print Assumptions C09_dir_selects_exactly.
 Print Assumptions C09_under_dir_is_a_prefix_relation.
 Print Assumptions C09_head_lookup_exact.
@@ -85,3 +126,6 @@ Print Assumptions C09_restore_worktree_spec.
 Print Assumptions C09_restore_unknown_refused.
 Print Assumptions C09_restore_staged_spec.
 Print Assumptions C09_source_patterns_are_the_models.
+Print Assumptions C09_restore_worktree_total.
+Print Assumptions C09_restore_staged_total.
+Print Assumptions C09_unknown_argument_refuses_all.
